@@ -208,6 +208,7 @@ func c08Replay(w *mc.W, data json.RawMessage) error {
 
 type c08State struct {
 	lean bool // fewer arc variants per batch (the 2^32 sweep)
+	ctx  []uint32
 	w    *mc.W
 	ps   ref.Parser
 	rd   rec.Dest
@@ -400,6 +401,13 @@ func (st *c08State) batch(vals []uint32) {
 	if n == 0 {
 		return
 	}
+	st.ctx = vals
+	w.SetAltCase(func() any {
+		if len(st.ctx) < 2 {
+			return nil
+		}
+		return c08Case{Route: "batch", Bits: append([]uint32(nil), st.ctx...)} // a failure may depend on the position in its run
+	})
 	if w.WantSample() {
 		w.Sample(map[string]any{"batch_of_float32_bits": fmt.Sprintf("%08x %08x %08x ... (%d values, routes lod/hires/lores/angle/nreg/viewbox/direct)", vals[0], vals[n/2], vals[n-1], n)})
 	}
@@ -479,10 +487,13 @@ func (st *c08State) batch(vals []uint32) {
 		e.HighResolutionCoordinates = variant&1 == 0
 		e.StartPath(0, 0, 0)
 		for i, u := range vals {
+			// the radii take turns being zero (a zero-radius arc is a line when drawn, but its
+			// rotation and flags are operands like any other) or below the low-resolution quantum
+			r := [4][2]float32{{1, 2}, {0, 2}, {1, 0}, {1.0 / 256, 2}}[i>>2&3]
 			if variant&2 == 0 {
-				e.AbsArcTo(1, 2, b32f(u), i&1 != 0, i&2 != 0, 3, 4)
+				e.AbsArcTo(r[0], r[1], b32f(u), i&1 != 0, i&2 != 0, 3, 4)
 			} else {
-				e.RelArcTo(1, 2, b32f(u), i&1 != 0, i&2 != 0, 3, 4)
+				e.RelArcTo(r[0], r[1], b32f(u), i&1 != 0, i&2 != 0, 3, 4)
 			}
 		}
 		e.ClosePathEndPath()
@@ -530,6 +541,10 @@ func (st *c08State) batch(vals []uint32) {
 						kind = 'q'
 					}
 					st.judge(route, kind, b32f(u), x.n, x.f)
+				}
+				// rotation and flags are written whatever the radii are (zero, negative, non-finite)
+				if a, fl := st.nums[2+6*i+2], st.nums[2+6*i+3]; a.kind != 'z' || a.f != 0.25 || fl.kind != 'n' || fl.nat != 2 {
+					w.Fail(route+":angle-or-flags", fmt.Sprintf("arc with radii %s, rotation 0.25 and flags 2 written with rotation %s and flags %d", rec.F(b32f(u)), rec.F(a.f), fl.nat), c08Case{Route: route, Bits: []uint32{u}})
 				}
 			}
 		}
